@@ -161,9 +161,9 @@ CHECKS = {
              'blade matrices built by matrix_rep multiply like the blades, M(e_I) M(e_J) = s(I,J) M(e_IJ), and column 0 of M(e_I) is the I-th unit '
              'vector - by the universal property of the sign table (any associative structure whose generators satisfy the Clifford relations), the '
              'mixed-product property of the Kronecker construction and the ordering matrix being a signed permutation matrix; hence for all '
-             'operands asmatrix is linear, multiplicative, injective, frommatrix inverts it.  (The exhaustive d <= 4 computation is kept as an '
-             'independent cross-check, and shows that the model\'s single blades branch equals the code\'s combinations branch for default bases '
-             'd <= 4.)  PARTIAL only in that expr_as_matrix is not modelled: direct oracle (exploration).',
+             'operands asmatrix is linear, multiplicative, injective, frommatrix inverts it.  The code\'s two branches (combinations for a default basis, products along the names for a custom one) are proved '
+             'to give the same matrices on every default algebra of every dimension.  (The exhaustive d <= 4 computation is kept as an '
+             'independent cross-check.)  PARTIAL only in that expr_as_matrix is not modelled: direct oracle (exploration).',
         technique='Rocq proof (abstract algebra + induction on the Kronecker construction, no enumeration) + exhaustive kernel computation as cross-check + differential correspondence',
         ref='DESIGN.md 4 (C18)'),
     'C19': dict(
